@@ -34,6 +34,12 @@ class Check:
         self.rule = ""
         self.exhaustive = False
         self.mc_runs = []
+        import glob
+        for f in glob.glob(os.path.join(common.REPLAY, f"{pid}-*.json")):
+            try:
+                os.remove(f)
+            except OSError:
+                pass
 
     # ---- model-checking runs -------------------------------------------------------------
     def add_mc(self, name, result, constants=None):
@@ -42,6 +48,9 @@ class Check:
         self.mc_runs.append({"model": name, "distinct_states": result.distinct,
                              "states_generated": result.generated, "wall_s": result.wall,
                              "constants": constants or {}})
+        if result.errors and not result.violated:
+            from .tlc import TLCError
+            raise TLCError(f"TLC error in model {name}: {result.errors[0][:1500]}")
         if result.errors:
             # a design-level invariant failed in the model itself: report as a violation of the
             # property with the TLC counterexample as replay
